@@ -90,6 +90,24 @@ Theorem C12_decomposition_reproduces_request : forall (R : cring) m small skip i
 Proof. exact decomposition_correct'. Qed.
 Print Assumptions C12_decomposition_reproduces_request.
 
+(* every try of the retry loop runs the elimination on the SAME (pre-processed) request: an abandoned try leaves
+   nothing behind *)
+Theorem C12_retry_restarts_from_the_request : forall (R : cring) m small skip iib perm_on Os solve tries wp
+    (U : mat R) s r s',
+  retry m small skip iib perm_on Os solve tries wp U s = (Some r, s') ->
+  exists s0 s1, triangle m small skip iib perm_on Os solve wp U s0 = (Some r, s1).
+Proof. exact retry_some. Qed.
+Print Assumptions C12_retry_restarts_from_the_request.
+
+(* "None" is outside the soundness claim and comes only from the solver: the completeness sentence ("a universal
+   block is found within the configured retries") is a statement about the numerical oracle alone *)
+Theorem C12_none_only_from_solver : forall (R : cring) m small skip iib perm_on Os solve hinv_b vinv_b
+    wp v h tries (U : mat R) s s',
+  decomposition m small skip iib perm_on Os solve hinv_b vinv_b wp v h tries U s = (None, s') ->
+  tries = 0%nat \/ exists s0 n j u, fst (solve s0 n j u) = None.
+Proof. exact decomposition_none_only_from_solver. Qed.
+Print Assumptions C12_none_only_from_solver.
+
 (* the hypotheses are satisfiable (two modes, an exact oracle answering with a swap or the identity) *)
 Example C12_hypotheses_satisfiable :
   oracle_ok QI 2 w_small0 w_skip0 unit w_solve0 /\ inverse_ok QI (@ideal_hinv QI) (@ideal_vinv QI) /\
